@@ -6,13 +6,14 @@ import (
 	"fmt"
 	"os"
 	"runtime/debug"
+	"strings"
 	"testing"
 
 	"github.com/relab/hotstuff/security/crypto"
 )
 
 type c02Streams struct {
-	qc, tc, agg, any, mkqc, mktc, mkagg, sv, sb, sc *verifStream
+	qc, tc, agg, any, mkqc, mktc, mkagg, sv, sb, sc, qcp, tcp, aggp *verifStream
 }
 
 func TestVerifC02(t *testing.T) {
@@ -21,13 +22,16 @@ func TestVerifC02(t *testing.T) {
 		qc:    v.Stream("qc", "qc_mismatches", 700),
 		tc:    v.Stream("tc", "tc_mismatches", 700),
 		agg:   v.Stream("agg", "agg_mismatches", 250),
-		any:   v.Stream("any", "any_mismatches", 250),
+		any:   v.Stream("any", "anyp_mismatches", 250),
 		mkqc:  v.Stream("mkqc", "mkqc_mismatches", 500),
 		mktc:  v.Stream("mktc", "mktc_mismatches", 500),
 		mkagg: v.Stream("mkagg", "mkagg_mismatches", 300),
 		sv:    v.Stream("sv", "sv_mismatches", 700),
 		sb:    v.Stream("sb", "sb_mismatches", 500),
 		sc:    v.Stream("sc", "sc_mismatches", 500),
+		qcp:   v.Stream("qcp", "qcp_mismatches", 500),
+		tcp:   v.Stream("tcp", "tcp_mismatches", 500),
+		aggp:  v.Stream("aggp", "aggp_mismatches", 250),
 	}
 	ns := []int{1, 2, 3, 4, 7, 10, 13}
 	if v.Thorough() || os.Getenv("VERIF_SEARCH") != "" {
@@ -73,6 +77,29 @@ func TestVerifC02(t *testing.T) {
 				c02SchemeStream(w, st)
 			})
 		}
+		// BLS proof of possession: a member registered with a missing / invalid proof (incl. a rogue key
+		// built from the other members' keys) has no usable key; verdicts must not depend on what the
+		// long-lived crypto base verified before
+		if scheme == crypto.NameBLS12 {
+			for _, bp := range []struct {
+				bad     int
+				kind    string
+				generic bool
+			}{{3, "rogue", true}, {3, "other-key", false}, {3, "garbage", false}, {3, "missing", false}, {4, "missing", true}} {
+				guard(fmt.Sprintf("%s bad-pop %d %s", scheme, bp.bad, bp.kind), func() {
+					c02BadPop = map[int]string{bp.bad: bp.kind}
+					w := c02NewWorld(v, scheme, 4)
+					w.sparse = true
+					c02PopStream(w, st)
+					if bp.generic {
+						c02QCStream(w, st)
+						c02TCStream(w, st)
+						c02AggStream(w, st)
+						c02SchemeStream(w, st)
+					}
+				})
+			}
+		}
 		// membership that grows after the Authority was created
 		guard(scheme+" growth", func() { c02GrowthStream(v, st, scheme, nil) })
 		guard(scheme+" growth sparse", func() { c02GrowthStream(v, st, scheme, []uint64{2, 258, 65538, 7, 263, 65543, 9}) })
@@ -83,13 +110,14 @@ func TestVerifC02(t *testing.T) {
 // evalQC runs VerifyQuorumCert at every verifier / cache setting, evaluates the property's
 // oracle on the verdict and emits one kernel case per call.
 func (w *c02World) evalQC(st *c02Streams, q *c02QC, mut string, honest bool) {
-	truth, class := w.qcTruth(q)
+	honest = w.honestHere(mut, honest)
 	for vi := range w.vers {
 		for _, cache := range []bool{false, true} {
 			if !w.wantCall(mut, honest, vi, cache) {
 				continue
 			}
 			a := w.auth(vi, cache, false)
+			truth, class := w.qcTruth(q) // depends on the verifier: whose keys it can use
 			o := c02Run(func() error { return a.VerifyQuorumCert(q.obj) })
 			if cache && o == "ok" { // warm second look-up must give the same verdict
 				if o2 := c02Run(func() error { return a.VerifyQuorumCert(q.obj) }); o2 != o {
@@ -116,7 +144,11 @@ func (w *c02World) evalQC(st *c02Streams, q *c02QC, mut string, honest bool) {
 			if o == "panic" {
 				w.v.Note("panic in VerifyQuorumCert: " + mut)
 			}
-			w.v.Case(st.qc, fmt.Sprintf("(%s,%s,%s,%s)", w.cfgTerm(false), w.storeTm, q.term, c02Obs(o)), meta)
+			if len(w.badPop) > 0 {
+				w.v.Case(st.qcp, fmt.Sprintf("(%s,%s,%s,%s,%s)", w.cfgTerm(false), w.vctxTerm(), w.storeTm, q.term, c02Obs(o)), meta)
+			} else {
+				w.v.Case(st.qc, fmt.Sprintf("(%s,%s,%s,%s)", w.cfgTerm(false), w.storeTm, q.term, c02Obs(o)), meta)
+			}
 		}
 	}
 }
@@ -130,6 +162,9 @@ func (w *c02World) wantCall(mut string, honest bool, vi int, cache bool) bool {
 	}
 	if w.grow != nil {
 		return vi == 0
+	}
+	if strings.HasPrefix(mut, "pop:") {
+		return true
 	}
 	if w.v.Thorough() && mut != "enum-labels" {
 		return true
@@ -152,6 +187,12 @@ func (w *c02World) wantCall(mut string, honest bool, vi int, cache bool) bool {
 	return vi == 0
 }
 
+// honestHere: in a world with a bad proof of possession the generic "honest" cases may rely on the
+// member without a usable key; completeness is then claimed only for the cases written for that world.
+func (w *c02World) honestHere(mut string, honest bool) bool {
+	return honest && (len(w.badPop) == 0 || strings.HasPrefix(mut, "pop:"))
+}
+
 func (w *c02World) rnd(q, t int) int {
 	k := w.v.Pick(q, t)
 	if w.sparse || w.grow != nil {
@@ -162,7 +203,7 @@ func (w *c02World) rnd(q, t int) int {
 
 func (w *c02World) meta(kind, mut, term string, vi int, cache bool, o string) map[string]any {
 	return map[string]any{"call": kind, "scheme": w.scheme, "n": w.n, "quorum": w.q, "mutation": mut, "certificate": term,
-		"verifier": w.ids[w.vers[vi].id-1], "members": w.membersTerm(), "cache": cache, "cache_capacity": w.cacheCap, "observed": o, "store": w.storeTm}
+		"verifier": w.ids[w.vers[vi].id-1], "members": w.membersTerm(), "bad_pop": fmt.Sprint(w.badPop), "cache": cache, "cache_capacity": w.cacheCap, "observed": o, "store": w.storeTm}
 }
 
 // parts helpers
